@@ -1665,10 +1665,6 @@ def read_index(file, name, index, tindex, stop=b'\377' * 8,
         tid, tl, status, ul, dl, el = unpack(TRANS_HDR, h)
         status = as_text(status)
 
-        if tid <= ltid:
-            logger.warning("%s time-stamp reduction at %s", name, pos)
-        ltid = tid
-
         if pos + (tl + 8) > file_size or status == 'c':
             # Hm, the data were truncated or the checkpoint flag wasn't
             # cleared.  They may also be corrupted,
@@ -1710,6 +1706,12 @@ def read_index(file, name, index, tindex, stop=b'\377' * 8,
 
         if tid >= stop:
             break
+
+        # Only a transaction that is part of the database counts as the
+        # last transaction (not a truncated or unfinished one at the end).
+        if tid <= ltid:
+            logger.warning("%s time-stamp reduction at %s", name, pos)
+        ltid = tid
 
         tpos = pos
         tend = tpos + tl
